@@ -2830,7 +2830,7 @@ def skel_t_handlePanic : List String := [
   "}",
   "v2, v3 := v1.(error)",
   "switch {",
-  "case v3 && errors.Is(v2, errFailNow):",
+  "case v3 && v2 == errFailNow:",
   "return",
   "case v3:",
   "v4 := debug.Stack()",
